@@ -116,6 +116,46 @@ func runEnumDecoders(c *Ctx, fns []*ssa.Function, rule string) {
 							member = true
 						}
 					}
+					// or it passed a membership predicate of the module: a function of the value that answers true
+					// only on paths that compared it equal to a declared constant
+					for _, at := range r.conds {
+						if member || !at.opaque || at.neg || at.v == nil {
+							continue
+						}
+						call, isCall := at.v.(*ssa.Call)
+						if !isCall || len(call.Call.Args) != 1 || call.Call.Args[0] != rv {
+							continue
+						}
+						if g := staticCallee(call); g != nil && p.isModuleFn(g) && len(g.Blocks) > 0 && len(g.Params) == 1 {
+							if gt, err := extractTable(g); err == nil {
+								okAll, nTrue := true, 0
+								for _, gr := range gt.rows {
+									k, isK := gr.vals[0].(*ssa.Const)
+									if gr.panics || len(gr.vals) != 1 {
+										continue
+									}
+									if !isK {
+										okAll = false
+										continue
+									}
+									if bv, isB := constBool(k); !isB || !bv {
+										continue
+									}
+									nTrue++
+									eq := false
+									for _, ga := range gr.conds {
+										if !ga.opaque && !ga.neg && ga.subj == canon(g.Params[0]) && consts[ga.konst] {
+											eq = true
+										}
+									}
+									if !eq {
+										okAll = false
+									}
+								}
+								member = okAll && nTrue > 0
+							}
+						}
+					}
 					if member {
 						seen[rv] = true // accepted on this path; other paths returning it are rows of their own
 						continue
